@@ -73,6 +73,8 @@ def _on_call(code, offset, callee, arg0):
         return
     if name in DENY_NAMES:
         mod = getattr(callee, '__module__', None)
+        if name == 'compile' and mod == 're':
+            return          # compiling the user's REGULAR EXPRESSION is what regex()/extract() document; builtins.compile stays denied
         if name in ('format', '__format__') and mod == 'builtins' and not hasattr(callee, '__self__'):
             pass
         _CALL['hits'].append(('call to %s.%s' % (mod, name), code.co_name))
